@@ -7,6 +7,7 @@ import (
 	"go/constant"
 	"go/token"
 	"go/types"
+	"regexp"
 	"sort"
 	"strings"
 )
@@ -261,7 +262,7 @@ var nameTableAccepted = map[string][]string{
 	"names":                 {"const:main", "sprintf:_group_%d_binding_%d_%s", "arg:const:cs", "arg:const:fs", "arg:const:vs", "sprintf:_immediates_binding_%s"},
 	"entryPointNames":       {"const:main"},
 	"typeNames":             {},
-	"namedExpressions":      {"sprintf:_e%d", "call:allocateUnnamedVar", "param:name"},
+	"namedExpressions":      {"call:allocateUnnamedVar", "param:name"},
 	"localNames":            {"call:getName"},
 	"flattenedMemberNames":  {},
 	"oobLocals":             {},
@@ -269,6 +270,20 @@ var nameTableAccepted = map[string][]string{
 	"arrayWrappers":         {"call:getTypeName"},
 	"varyingNameMap":        {"call:varyingName"},
 	"globalInstanceName":    {"sprintf:_group_%d_binding_%d_%s", "arg:const:cs", "arg:const:fs", "arg:const:vs"},
+}
+
+// digitTerminatedFormat: a generated spelling "<prefix>%d" whose literal prefix is an identifier
+// not ending in '_' can never equal a spelling of the namer: those that end in a digit have the
+// form base_N with a sanitised base (no trailing underscore, rule names.sanitize), so they carry
+// an underscore directly before the final digits.
+var digitFmtRe = regexp.MustCompile(`^sprintf:[A-Za-z_][A-Za-z0-9_]*[A-Za-z0-9]%d$`)
+
+func digitTerminatedFormat(kind string) bool {
+	if !digitFmtRe.MatchString(kind) {
+		return false
+	}
+	pre := strings.TrimSuffix(strings.TrimPrefix(kind, "sprintf:"), "%d")
+	return !strings.HasSuffix(pre, "_") && !(len(pre) > 0 && pre[len(pre)-1] >= '0' && pre[len(pre)-1] <= '9')
 }
 
 func (c *Ctx) runNameFresh(r *Report, rule string, pkgs func(string) bool) {
@@ -282,9 +297,10 @@ func (c *Ctx) runNameFresh(r *Report, rule string, pkgs func(string) bool) {
 		n++
 		var bad []string
 		for _, k := range s.Prov {
-			if !hasStr(nameTableAccepted["*"], k) && !hasStr(extra, k) {
-				bad = append(bad, k)
+			if hasStr(nameTableAccepted["*"], k) || hasStr(extra, k) || digitTerminatedFormat(k) {
+				continue
 			}
+			bad = append(bad, k)
 		}
 		cons := s.Fn.id() + ":" + s.Field
 		ord[cons]++
